@@ -506,6 +506,7 @@ func cmdCheck(args []string) int {
 				"solver_time_s":   float64(atomic.LoadInt64(&gstats.SolverNs)) / 1e9,
 				"cross_checks":    atomic.LoadInt64(&gstats.XCheck),
 				"cross_disagree":  atomic.LoadInt64(&gstats.XDisagree),
+				"cross_unknown":   atomic.LoadInt64(&gstats.XUnknown),
 				"cross_solvers":   eng.xsolversUsed(),
 			},
 			"stubs":       spec.Stubs,
